@@ -273,3 +273,20 @@ CLAIMS['C20']['text'] += (' Round 10: HASH-FRAMED - a hand-written Hash impl tha
                           'sequence - reproduced against the real code and recorded as an OPEN known finding, because the repair moves the '
                           'constant the pinned test hash_available asserts; the check prints KNOWN-FINDING for exactly that key.')
 CLAIMS['C20']['technique'] += '; framing check of child-list loops in hand-written Hash impls'
+
+CLAIMS['C06']['text'] += (' Round 10: PAIR registered here as well - every index a child announces for a name is entered into the translation table '
+                          'on every path (a translation that lands only in the vacant arm of an entry match loses the name of an already known '
+                          'string).')
+CLAIMS['C07']['text'] += (' Round 10: PREFIX-SUM registered here as well - ReplaceSource::rope() slices its inner rope by the stored piece offsets, '
+                          'so rope() renders to source() only if every (piece, offset) pair stores a running total of the piece lengths.')
+CLAIMS['C07']['technique'] += '; running-total analysis of rope piece offsets'
+for _p in ('C05', 'C17'):
+    CLAIMS[_p]['text'] += (' Round 10: CLAMP covers every content view of ReplaceSource (source, rope, buffer, size, to_writer) and byte-slice '
+                           'ranges as well as str ranges: a view that re-implements the splice loop instead of deriving from source() is held to '
+                           'the same clamping.')
+CLAIMS['C11']['text'] += (' Round 10: VLQ-TERMINATED registered here as well - every VLQ field the encoders write ends with a digit whose continuation '
+                          'bit is clear, so the mappings string decodes into the segments that were encoded (a field that swallows its successor '
+                          'yields indices and positions nobody announced).')
+CLAIMS['C20']['text'] += (' Round 10: the all-paths clause of HASHCOVER counts as a feed only a call that also receives the hasher, and lets a path '
+                          'skip the feed only where the choice sends a single value of the field down that path (its discriminant, is_empty / '
+                          'is_none / is_some of it); any other predicate over the field sends a class of values there, which then hash alike.')
